@@ -19,6 +19,17 @@ PROPS = {
                         "full grammar membership of error-free documents (token ORDER and KINDS inside a production beyond what the min-length bounds imply; only Type is specified exactly, under C07)",
                         "that the syntax tree contains exactly the reference parser's top-level definitions (tree shape is not modelled)", "the reference parser as oracle"],
     },
+    "C15": {
+        "level": "proof",
+        "verus": ["schema_rules", "types"],
+        "explanation": "KERNEL ONLY: three of the mechanisms behind 'acceptance implies these invariants'. Verus proves for every input: validate_type_system_name reports a name exactly when it starts with `__` and "
+                       "is not located in the built-in file (Reserved Names); BuiltInScalars::record_type_ref says whether a name is a built-in scalar and records it as used-and-defined / used-and-undefined "
+                       "according to the schema's type map, all_used compares the counts (the bookkeeping that decides which built-in scalars stay in a valid schema's type map); validate_implementation_field_types "
+                       "reports exactly one diagnostic, in order, for every implemented-interface field whose type the implementor's field does not satisfy (IsValidImplementationFieldType), none skipped.",
+        "assumptions": ["HashMap / HashSet / IndexMap / IndexSet behave as maps / sets / sequences keyed by the name's text (shims)", "Schema::is_subtype is the schema's subtype relation"],
+        "not_decided": ["the property's main clause: that ACCEPTANCE by the whole of validate_schema implies every listed invariant (root types, referenced types exist with the right kind, argument contracts, "
+                        "transitive interfaces, input-object cycles): would need contracts on every validator and on validate_schema's retain / insert of built-in scalars (closures over hash collections)"],
+    },
     "C17": {
         "level": "proof",
         "verus": ["types"],
